@@ -48,14 +48,19 @@ func c03Setup(group string, dir string) *c03Fix {
 	}
 	switch group {
 	case "utxo":
-		// two spendable outputs U1, U2
+		// two spendable outputs U1, U2 of ONE source transaction (same hash,
+		// indexes 0 and 1)
 		var us []*common.Input
-		for i := 0; i < 2; i++ {
-			dep := l.Net.DepositBTC(fmt.Sprintf("c03-fund-%d", i), "10", w.acct(), 1)
+		{
+			dep := l.Net.DepositBTC("c03-fund", "20", w.acct(), 1)
 			if v, e := w.admit(dep); v != nil || e != nil {
 				panic(fmt.Sprint(v, e))
 			}
-			us = append(us, &common.Input{Hash: dep.PayloadHash(), Index: 0})
+			split := w.sign(fixc.Transfer(common.BitcoinAssetId, []*common.Input{{Hash: dep.PayloadHash(), Index: 0}}, []fixc.Out{{To: w.acct(), T: 1, Amount: "10"}, {To: w.acct(), T: 1, Amount: "10"}}, "c03-split"))
+			if v, e := w.admit(split); v != nil || e != nil {
+				panic(fmt.Sprint(v, e))
+			}
+			us = append(us, &common.Input{Hash: split.PayloadHash(), Index: 0}, &common.Input{Hash: split.PayloadHash(), Index: 1})
 		}
 		mk := func(label string, ins ...*common.Input) *common.VersionedTransaction {
 			amt := fmt.Sprint(10 * len(ins))
@@ -66,6 +71,7 @@ func c03Setup(group string, dir string) *c03Fix {
 		add("B", mk("B", us[0]), "U1")
 		add("C", mk("C", us[0], us[1]), "U1", "U2")
 		add("D", mk("D", us[1], us[0]), "U2", "U1")
+		add("E", mk("E", us[1]), "U2")
 		for i, name := range []string{"U1", "U2"} {
 			in := us[i]
 			f.read[name] = func() crypto.Hash {
@@ -94,6 +100,9 @@ func c03Setup(group string, dir string) *c03Fix {
 		add("C", mk(vars[1], "dC"), "D2")
 		add("E", mk(vars[2], "dE"), "D3")
 		add("F", mk(vars[3], "dF"), "D4")
+		// same external output (chain, transaction id, index) claimed under a
+		// different asset key: the SAME deposit identifier, hence the same slot
+		add("G", l.Net.Deposit(common.BitcoinAssetId, base.chain, fixc.BTCAssetKey+"-other", base.ext, base.idx, common.NewIntegerFromString("3"), w.acct(), 1, "c03-dG"), "D1")
 		for _, v := range vars {
 			data := &common.DepositData{Chain: v.chain, AssetKey: fixc.BTCAssetKey, Transaction: v.ext, Index: v.idx, Amount: common.NewIntegerFromString("3")}
 			f.read[v.slot] = func() crypto.Hash {
@@ -297,8 +306,8 @@ func c03ModelStep(m *c03Model, tx *c03Tx, op int, group string) (enabled, ok boo
 		if !m.holdsAll(tx) {
 			return false, false
 		}
-		if group == "deposit" && tx.name == "F" {
-			return false, false // asset info of chain-variant conflicts; not part of the lock property
+		if group == "deposit" && (tx.name == "F" || tx.name == "G") {
+			return false, false // asset info of the chain / asset-key variant conflicts; not part of the lock property
 		}
 		m.body[tx.name] = true
 		return true, true
@@ -397,6 +406,8 @@ func c03Scenarios() []c03Scenario {
 		{"utxo: [A locked+written] snapshot(A) || fork(C) || lock(B)", "utxo", [][2]any{{"A", L}, {"A", W}}, [][][2]any{{{"A", Z}}, {{"C", F}}, {{"B", L}}}},
 		{"utxo: fork(A);write(A);snapshot(A) || fork(B);write(B)", "utxo", nil, [][][2]any{{{"A", F}, {"A", W}, {"A", Z}}, {{"B", F}, {"B", W}}}},
 		{"utxo: lock(A);lock(A) || fork(B);lock(B)", "utxo", nil, [][][2]any{{{"A", L}, {"A", L}}, {{"B", F}, {"B", L}}}},
+		{"utxo: [A,E locked+written, E final] fork(C) || lock(B)", "utxo", [][2]any{{"A", L}, {"A", W}, {"E", L}, {"E", W}, {"E", Z}}, [][][2]any{{{"C", F}}, {{"B", L}}}},
+		{"deposit: lock(A) || lock(G asset-key variant)", "deposit", nil, [][][2]any{{{"A", L}}, {{"G", L}}}},
 		{"deposit: lock(A) || lock(B) || lock(C index variant)", "deposit", nil, [][][2]any{{{"A", L}}, {{"B", L}}, {{"C", L}}}},
 		{"deposit: lock(A) || fork(B) || lock(E txid variant)", "deposit", nil, [][][2]any{{{"A", L}}, {{"B", F}}, {{"E", L}}}},
 		{"deposit: fork(A);write(A);snapshot(A) || fork(B)", "deposit", nil, [][][2]any{{{"A", F}, {"A", W}, {"A", Z}}, {{"B", F}}}},
@@ -452,7 +463,7 @@ func c03Linearizable(f *c03Fix, start *c03Model, threads [][]*c03Call, final *c0
 func TestMC_C03(t *testing.T) {
 	c := verifmc.Start(t, "C03", "model_checking")
 	defer c.Finish()
-	c.SetRule("(1) BFS over all sequential histories of {lock, fork-lock, write body, finalize} x competing transactions per slot group (2 outputs / 4 deposit ids differing only in index, tx id or chain / 2 mint batches), real store compared with a slot->holder reference after every call; (2) for 13 concurrent scenarios every goroutine interleaving up to the preemption bound at store-mutex and Badger txn begin/commit points, each execution's call results and final stored state must be linearisable w.r.t. the same reference")
+	c.SetRule("(1) BFS over all sequential histories of {lock, fork-lock, write body, finalize} x competing transactions per slot group (2 outputs / 4 deposit ids differing only in index, tx id or chain / 2 mint batches), real store compared with a slot->holder reference after every call; (2) for 15 concurrent scenarios every goroutine interleaving up to the preemption bound at store-mutex and Badger txn begin/commit points, each execution's call results and final stored state must be linearisable w.r.t. the same reference")
 	c.Assume("Badger's serializable snapshot isolation: a transaction's reads are fixed at begin and its writes appear atomically at commit, so begin/commit and the store mutex are the only scheduling points that matter", "config.Debug assertions in WriteTransaction/WriteSnapshot are driver preconditions")
 	depth := verifmc.Pick(c, 4, 5)
 	var st, tr int64
